@@ -70,8 +70,8 @@ def register(R: Registry):
     R.add(f"{NODE}:Node.is_furcation", prop="C08",
           setup=lambda S: dict(self=node_obj(S, sym_tree(S, "t", frozen=True))),
           requires=[("handle-in-range", handle_in_range)],
-          ensures=[("true-iff-more-than-one-row-names-this-id-as-parent", furc_count),
-                   ("true-iff-two-distinct-rows-name-this-id-as-parent", furc_two_rows)],
+          ensures=[("true-iff-two-distinct-rows-name-this-id-as-parent", furc_two_rows),
+                   ("true-iff-more-than-one-row-names-this-id-as-parent", furc_count)],
           options=dict(OPTS, hints={"post/true-iff-two-distinct-rows-name-this-id-as-parent": furc_hint}))
 
     # ================================================================ Node.is_tip
@@ -446,4 +446,105 @@ def register(R: Registry):
           ensures=[(w, gb_post(w)) for w in ("pending-chain-of-more-than-one-node-closed-root-first", "every-branch-of-the-traversal-kept-once")]
           + [("result-order-closing-branch-first-then-closed-branches-reversed", gb_post("order"))],
           notes="post-traversal step only; the traversal is replaced by an arbitrary result (assumption listed)",
+          options=dict(OPTS))
+
+    # ================================================================ get_furcations: the output step
+    # the traversal is abstracted (it may record ANY sequence of ids through the callback's list); the method must hand back
+    # one handle per recorded id, in order, on this tree, addressed by the recorded id.
+    def gf_setup(S):
+        t = sym_tree(S, "t", frozen=True)
+        cell = {}
+
+        def traverse_model(eng, args, kwargs):
+            eng.assumptions.add("abstraction: Tree.traverse(leave=collect_furcations) appends an arbitrary sequence of ids to the callback's list")
+            leave = kwargs.get("leave")
+            if args or set(kwargs) != {"leave"} or not hasattr(leave, "frame"):
+                raise X.Unsupported("get_furcations calls traverse in an unexpected form")
+            fl = leave.frame.lookup("furcations")
+            if not (isinstance(fl, PList) and fl.items == []):
+                raise X.Unsupported("the callback's list is not empty before the traversal")
+            fl.name = "recorded"
+            fl.promote("int")
+            eng.assume(fl.n >= 0)
+            cell["rec"] = (fl, fl.cols[0], fl.n)
+            cell["calls"] = cell.get("calls", 0) + 1
+            return None
+
+        t.fields["traverse"] = S.callback("Tree.traverse", traverse_model)
+        return dict(self=t, __ghost__=dict(cell=cell))
+
+    def gf_post(E, v, o):
+        cell = E.spec_extra["cell"]
+        res = _handles(v)
+        t = v["self"]
+        if cell.get("calls") != 1 or res is None or res.fixed.get("attach") is not t:
+            return False
+        fl, c0, n0 = cell["rec"]
+        k = z3.Int(fresh_name("k"))
+        return z3.And(zint(res.n) == zint(n0), z3.ForAll([k], z3.Implies(z3.And(0 <= k, k < zint(n0)), z3.Select(res.col("idx"), k) == z3.Select(c0, k))))
+
+    R.add(f"{TREE}:Tree.get_furcations", prop="C08",
+          setup=gf_setup,
+          ensures=[("one-handle-per-recorded-furcation-id-in-order", gf_post)],
+          notes="output step only; the traversal is replaced by an arbitrary recording (assumption listed)",
+          options=dict(OPTS))
+
+    # ================================================================ Tree.Node.branch on fixed small shapes
+    # For a pass-through node or a tip x the result must be THE branch that contains the edge into x (for a one-child root:
+    # the branch it starts): it contains x, starts at the root or a furcation, ends at a furcation or a tip, has only
+    # pass-through nodes in between, and consecutive entries are (parent, child).  Topology (id = position, pid) is concrete
+    # per variant, every other column is symbolic; furcation nodes are left out (the property does not say which of their
+    # branches `branch()` reports).
+    SHAPES = {
+        "chain4": [-1, 0, 1, 2],
+        "Y-with-stem": [-1, 0, 1, 2, 2, 3, 4],
+        "root-furcation": [-1, 0, 0, 1, 1, 2],
+        "trident": [-1, 0, 1, 1, 1, 2],
+    }
+
+    def nb_setup(pids, x):
+        def f(S):
+            from contracts.common import sym_tree_fixed
+            from pyvc.values import NArr
+
+            n = len(pids)
+            t = sym_tree_fixed(S, n, "t", frozen=True)
+            for cname, vals in (("id", list(range(n))), ("pid", list(pids))):
+                a = NArr((n,), vals, "int")
+                a.frozen = True
+                t.fields["ndata"].items[cname] = a
+            return dict(self=node_obj(S, t, idx=x), __ghost__=dict(pids=list(pids), x=x))
+
+        return f
+
+    def nb_post(E, v, o):
+        pids, x = E.spec_extra["pids"], E.spec_extra["x"]
+        res, t = v["result"], v["self"].fields["attach"]
+        from swcgeom.core.tree import Tree
+        from pyvc.values import NArr
+
+        if not (isinstance(res, Obj) and res.cls is Tree.Branch and res.fields.get("attach") is t and isinstance(res.fields.get("idx"), NArr)):
+            return False
+        L = res.fields["idx"].items
+        if not all(isinstance(a, int) for a in L) or not L:
+            return False
+        nch = lambda a: sum(1 for p in pids if p == a)
+        ok = x in L and len(set(L)) == len(L)
+        ok = ok and (pids[L[0]] == -1 or nch(L[0]) >= 2) and (nch(L[-1]) >= 2 or nch(L[-1]) == 0)
+        ok = ok and all(nch(a) == 1 for a in L[1:-1]) and all(pids[b] == a for a, b in zip(L, L[1:]))
+        ok = ok and (len(L) >= 2 or len(pids) == 1) and (L[0] != x or pids[x] == -1)
+        return bool(ok)
+
+    nb_variants = {}
+    for sname, pids in SHAPES.items():
+        for x in range(len(pids)):
+            k = sum(1 for p in pids if p == x)
+            if k >= 2:
+                continue
+            nb_variants[f"{sname} pid={pids} node {x} ({'tip' if k == 0 else 'pass-through'})"] = nb_setup(pids, x)
+
+    R.add(f"{TREE}:Tree.Node.branch", prop="C08",
+          variants=nb_variants,
+          ensures=[("the-branch-through-the-node-root-or-furcation-to-furcation-or-tip-pass-through-inside", nb_post)],
+          notes="fixed concrete topologies (4 shapes, every non-furcation node); the is_furcation / is_tip / parent / children calls are inlined from the current source",
           options=dict(OPTS))
